@@ -148,6 +148,8 @@ def parse_kani(out: str) -> dict:
             covers.append({"description": desc, "status": status})
         elif status in ("FAILURE", "UNDETERMINED"):
             failures.append({"check": name, "status": status, "description": desc, "location": loc})
+    for f in failures:
+        f["description"] = f["description"].strip('"')
     res["failures"] = failures
     res["covers"] = covers
     m = re.search(r"Failed Checks: (.*)", out)
@@ -248,13 +250,20 @@ def run_replay_file(ctx: Ctx, rpath: str, logdir: str | None = None) -> tuple[bo
         shutil.copytree(ctx.harness_dir, scratch, ignore=shutil.ignore_patterns("target"))
         with open(os.path.join(scratch, "src", module + ".rs"), "a") as f:
             f.write("\n" + body + "\n")
-        env = base_env()
-        env["CARGO_TARGET_DIR"] = os.path.join(lane, "playback-target")
         details = []
         reproduced = False
         for profile in ("", "--release"):
-            cmd = f"cargo kani playback -Z concrete-playback {profile} --test-threads=1 -- {test_name}" if False else \
-                f"cargo kani playback -Z concrete-playback {profile} -- {test_name}"
+            env = base_env()
+            if profile:
+                # `cargo kani playback` has no --release: emulate the release profile through cargo's
+                # profile environment overrides (optimised, no debug assertions, wrapping overflow).
+                env["CARGO_TARGET_DIR"] = os.path.join(lane, "playback-target-rel")
+                env["CARGO_PROFILE_DEV_OPT_LEVEL"] = "3"
+                env["CARGO_PROFILE_DEV_DEBUG_ASSERTIONS"] = "false"
+                env["CARGO_PROFILE_DEV_OVERFLOW_CHECKS"] = "false"
+            else:
+                env["CARGO_TARGET_DIR"] = os.path.join(lane, "playback-target")
+            cmd = f"cargo kani playback -Z concrete-playback -- {test_name}"
             rc, out, wall = run_cmd(cmd, scratch, 1500, None, env)
             if logdir:
                 with open(os.path.join(logdir, os.path.basename(rpath) + f".replay{profile or '--dev'}.log"), "w") as f:
